@@ -229,6 +229,89 @@ def random_rotation(rng):
     return q
 
 
+def barycentric_block(api, rng, strength, out):
+    """Element renumbering / local rotation equivariance for operators whose spaces use barycentric_representation /
+    dof_transformation: identity RWG(segment)->BC, SNC(segment)->RBC, P1(segment)->DUAL0 / DUAL1 (thorough: EFIE with RBC test
+    space through the FMM glue with the exact evaluator).  Multi-domain non-uniform mesh; the segment is stored LAST (non-prefix
+    support) in the reference numbering and FIRST, randomly renumbered (vertices + elements) and locally rotated in the others.
+    Singular values are invariant under signed permutations of rows and columns, so they must agree."""
+    from bempp_cl.api.operators.boundary import sparse, maxwell
+    quick = strength == "quick"
+    fails = out["failures"]
+    for gname, dom in ([("octa", [2, 2, 2, 2, 1, 1, 1, 1])] if quick else
+                       [("octa", [2, 2, 2, 2, 1, 1, 1, 1]), ("cube", [1, 1, 2, 2, 2, 2, 1, 1, 2, 2, 1, 3])]):
+        base = C.make_grid(gname, rng, distorted=True, jitter=True)
+        vv, ee = base.vertices, base.elements
+        dom = np.array(dom, dtype="uint32")
+        nel, nv = ee.shape[1], vv.shape[1]
+
+        def grid_from(order, sigma=None, rot=None):
+            els = ee[:, order].copy()
+            if rot is not None:
+                els = np.array([[els[(j + rot[c]) % 3, c] for c in range(nel)] for j in range(3)], dtype="uint32")
+            v = vv
+            if sigma is not None:
+                v = np.empty_like(vv)
+                v[:, sigma] = vv
+                els = sigma[els].astype("uint32")
+            return api.Grid(np.ascontiguousarray(v), np.ascontiguousarray(els), dom[order])
+        seg_last = np.concatenate([np.flatnonzero(dom != 2), np.flatnonzero(dom == 2)])
+        seg_first = np.concatenate([np.flatnonzero(dom == 2), np.flatnonzero(dom != 2)])
+        variants = [("segment stored first", grid_from(seg_first)),
+                    ("random vertex+element permutation", grid_from(rng.permutation(nel), rng.permutation(nv))),
+                    ("local rotations", grid_from(seg_last, None, rng.integers(0, 3, size=nel)))]
+        ref_grid = grid_from(seg_last)
+        C.set_orders(3, 3)
+
+        def matrix(g, which):
+            fs = api.function_space
+            if which == "identity RWG(segment)->BC":
+                s, d = fs(g, "RWG", 0, segments=[2], include_boundary_dofs=True), fs(g, "BC", 0)
+            elif which == "identity SNC(segment)->RBC":
+                s, d = fs(g, "SNC", 0, segments=[2], include_boundary_dofs=True), fs(g, "RBC", 0)
+            elif which == "identity P1(segment)->DUAL0":
+                s, d = fs(g, "P", 1, segments=[2], include_boundary_dofs=True), fs(g, "DUAL", 0)
+            elif which == "identity P1(segment)->DUAL1":
+                s, d = fs(g, "P", 1, segments=[2], include_boundary_dofs=True), fs(g, "DUAL", 1)
+            else:       # EFIE, RWG on the segment, RBC test space: only the FMM assembler accepts dof transformations
+                s, d = fs(g, "RWG", 0, segments=[2], include_boundary_dofs=True), fs(g, "RBC", 0)
+                op = maxwell.electric_field(s, s, d, 1.1, assembler="fmm").weak_form()
+                eye = np.eye(op.shape[1], dtype=complex)
+                return np.column_stack([op @ eye[:, j] for j in range(op.shape[1])])
+            return sparse.identity(s, d, d).weak_form().to_sparse().toarray()
+        ops = ["identity RWG(segment)->BC", "identity SNC(segment)->RBC", "identity P1(segment)->DUAL0",
+               "identity P1(segment)->DUAL1"]
+        if not quick and gname == "octa":
+            ops.append("maxwell.electric_field RWG(segment) x RBC (fmm, exact evaluator)")
+        for which in ops:
+            try:
+                ref = np.linalg.svd(matrix(ref_grid, which), compute_uv=False)
+            except Exception as e:
+                fails.append({"signature": "C03:%s raises %s" % (which, type(e).__name__), "what": repr(e),
+                              "data": {"grid": gname}})
+                continue
+            for vname, g in variants:
+                if which.startswith("maxwell") and vname == "local rotations":
+                    continue      # singular quadrature changes with the local vertex order
+                try:
+                    sv = np.linalg.svd(matrix(g, which), compute_uv=False)
+                except Exception as e:
+                    fails.append({"signature": "C03:%s raises %s" % (which, type(e).__name__), "what": repr(e),
+                                  "data": {"grid": gname, "variant": vname}})
+                    continue
+                err = (float(np.abs(sv - ref).max()) / float(ref.max())) if len(sv) == len(ref) else 1.0
+                key = "barycentric:%s" % which
+                out["worst"][key] = max(out["worst"].get(key, 0.0), err)
+                out["evaluations"] += 1
+                if not err <= 1e-9:
+                    fails.append({
+                        "signature": "C03:renumbering equivariance of %s (barycentric representation / dof transformation)"
+                                     % which,
+                        "what": "singular values change by %.3e (relative) between 'segment stored last' and '%s' on %s" % (
+                            err, vname, gname),
+                        "data": {"grid": gname, "variant": vname, "operator": which, "err": err}})
+
+
 def run_search(cfg):
     import bempp_cl.api as api
     seed = int(os.environ.get("VERIF_SEED", "0"))
@@ -355,12 +438,19 @@ def run_search(cfg):
                     fails.append({"signature": "C03:%s equivariance of %s" % (mode, name),
                                   "what": "%s on %s with %s/%s" % (msg, gname, tk, dk),
                                   "data": {"grid": gname, "dom": [dk, opts_d], "dual": [tk, opts_t], "errs": errs}})
+    with C.PyFuncMode(strength == "quick"):
+        barycentric_block(api, rng, strength, out)
     out["wall"] = time.time() - t0
     return out
 
 
 def main():
     cfg = json.load(sys.stdin)
+    if cfg.get("strength") != "quick":
+        # exafmm stand-in + the library's own exact evaluator (for the EFIE with a barycentric test space)
+        sys.path.insert(0, os.path.join(os.path.dirname(os.path.abspath(__file__)), "stubs"))
+        import bempp_cl.api as api
+        api.GLOBAL_PARAMETERS.fmm.dense_evaluation = True
     mode = cfg.get("mode")
     out = {}
     if mode in ("corr", "both"):
